@@ -100,9 +100,16 @@ class ParameterSection(Micheline, prim='parameter', args_len=1):
     def to_parameters(self, mode='readable') -> Dict[str, Any]:
         entrypoint, item = self.root_name, self.item
         if isinstance(self.item, OrType):
-            flat_values = self.item.get_flat_values(entrypoints=True)
-            assert isinstance(flat_values, dict) and len(flat_values) == 1, f'expected named type'
-            entrypoint, item = next(iter(flat_values.items()))
+            path_to_key, _, _ = self.item.get_type_layout(entrypoints=True)
+            assert isinstance(path_to_key, dict), f'expected named type'
+            # NOTE: the most specific entrypoint is the deepest annotated node on the path taken by the value,
+            # unannotated nodes (e.g. leaves below an annotated `or`) belong to the closest annotated ancestor or to the root
+            node, path = self.item, ''
+            while isinstance(node, OrType):
+                idx = 0 if node.is_left() else 1
+                node, path = node.items[idx], path + str(idx)  # type: ignore
+                if path in path_to_key:
+                    entrypoint, item = path_to_key[path], node
         return {
             'entrypoint': entrypoint,
             'value': item.to_micheline_value(mode=mode, lazy_diff=None),
